@@ -179,10 +179,19 @@ func VerifH10bSnippetUse() {
 	add("a", true)
 	add("{", false)
 	add("import", true)
-	add([]string{"s", "t"}[verifrt.Choose("use", 2)], false)
+	useIdx := verifrt.Choose("use", 2)
+	add([]string{"s", "t"}[useIdx], false)
 	add("}", true)
+	hasImport := false
+	for _, t := range toks[:len(toks)-5] {
+		hasImport = hasImport || t.Text == "import"
+	}
 	p := parser{Dispenser: NewDispenserTokens("Casketfile", toks)}
 	blocks, err := p.parseAll()
+	if !hasImport && useIdx < nsnip {
+		// snippets made of plain directive lines (possibly empty), the imported one defined: well-formed
+		verifrt.Assert(err == nil, "well-formed-snippet-use-parses")
+	}
 	if err != nil {
 		verifrt.Assert(strings.Contains(err.Error(), "Casketfile:"), "error-names-file-and-line")
 		return
